@@ -32,4 +32,38 @@ PROPS = {
         "assumptions": ["element values are canonical JSON texts, so byte equality coincides with store.Value.Equal (C18 covers Equal itself)",
                         "the transformer's Transform is total (failing transforms are not modelled)"],
     },
+    "C04": {
+        "streams": [{"domain": "req", "driver": "req04"}],
+        "require_tags": ["req-call-h", "req-get-h", "req-access-h", "req-auth-h", "req-call-h-noreply", "req-call-h-panic", "req-get-nomatch",
+                         "req-call-badpayload", "req-access-nohandler", "req-call-nohandler", "req-get-nohandler"],
+        "trusted": ["encoding/json (payloads are compared after canonicalisation: compact, sorted members); error texts produced by Go itself are replaced by a placeholder",
+                    "completion of a request is detected without hooks: a ping request through the same listener, then a WithGroup callback on the request's group"],
+        "assumptions": ["handler behaviour is a script over the responder/event API; handlers that block forever are excluded",
+                        "panic(nil) is given the Go >= 1.21 semantics (the harness module declares go 1.21)"],
+    },
+    "C05": {
+        "streams": [{"domain": "req", "driver": "req05"}],
+        "require_tags": ["req-call-h", "req-get-h", "req-access-h", "req-auth-h", "req-call-h-noreply", "req-call-h-panic", "req-get-nomatch",
+                         "req-call-badpayload", "req-call-nohandler", "req-auth-nohandler", "req-get-nohandler"],
+        "trusted": ["encoding/json (payloads are compared after canonicalisation: compact, sorted members); error texts produced by Go itself are replaced by a placeholder",
+                    "completion of a request is detected without hooks: a ping request through the same listener, then a WithGroup callback on the request's group"],
+        "assumptions": ["handler behaviour is a script over the responder/event API; handlers that block forever are excluded",
+                        "panic(nil) is given the Go >= 1.21 semantics (the harness module declares go 1.21)"],
+    },
+    "C07": {
+        "streams": [{"domain": "req", "driver": "req07"}],
+        "require_tags": ["req-call-h", "req-get-h", "req-call-h-ev", "req-call-h-meta", "req-get-h-ev", "req-auth-h-ev", "req-call-h-panic"],
+        "trusted": ["encoding/json (payloads are compared after canonicalisation: compact, sorted members); error texts produced by Go itself are replaced by a placeholder",
+                    "completion of a request is detected without hooks: a ping request through the same listener, then a WithGroup callback on the request's group"],
+        "assumptions": ["handler behaviour is a script over the responder/event API; handlers that block forever are excluded",
+                        "panic(nil) is given the Go >= 1.21 semantics (the harness module declares go 1.21)"],
+    },
+    "C08": {
+        "streams": [{"domain": "req", "driver": "req08"}],
+        "require_tags": ["req-call-h-ev", "req-call-h-ev-apply-ls", "req-get-h-ev-apply", "req-call-h-ev-ls", "req-call-h-apply"],
+        "trusted": ["encoding/json (payloads are compared after canonicalisation: compact, sorted members); error texts produced by Go itself are replaced by a placeholder",
+                    "completion of a request is detected without hooks: a ping request through the same listener, then a WithGroup callback on the request's group"],
+        "assumptions": ["handler behaviour is a script over the responder/event API; handlers that block forever are excluded",
+                        "panic(nil) is given the Go >= 1.21 semantics (the harness module declares go 1.21)"],
+    },
 }
